@@ -409,11 +409,14 @@ def u5(ctx):
                 a_ = n.ast
                 if n.kind == "stmt" and isinstance(a_, ast.Assign) and isinstance(a_.targets[0], ast.Subscript) and dotted(a_.targets[0].value) == REV:
                     val = a_.value
-                    if not isinstance(val, ast.Tuple):
-                        tv = [o.leaf for o in origins(du, n, val) if o.kind == "expr" and isinstance(o.leaf, ast.Tuple) and not o.path]
-                        val = tv[0] if len(tv) == 1 else None
-                    if isinstance(val, ast.Tuple):
-                        for i, e in enumerate(val.elts):
+                    from .common import as_tuple
+                    elts = as_tuple(ctx, f, n, val)          # a tuple display, or a record constructor (NamedTuple / dataclass)
+                    if elts is None:
+                        tv = [(o.leaf, o.node) for o in origins(du, n, val) if o.kind == "expr" and not o.path and o.leaf is not None]
+                        if len(tv) == 1:
+                            elts = as_tuple(ctx, f, tv[0][1] or n, tv[0][0])
+                    if elts:
+                        for i, e in enumerate(elts):
                             if sig(du, n, e) in fkeys:
                                 pos = i
         if pos is None:
@@ -473,7 +476,7 @@ def u6(ctx):
 
         def fwd_lookup_of_listed_name(o) -> bool:
             """origin o is `self._fname_to_uid[<listed name>]` / `.get(<listed name>)`, component 0 (the etag)."""
-            if o.kind != "expr" or o.leaf is None or o.path != (0,):
+            if o.kind != "expr" or o.leaf is None or tuple(o.path) not in ((0,), ("etag",)):     # F[name][0] / a record's .etag
                 return False
             x = o.leaf
             key = None
